@@ -125,24 +125,24 @@ Section Shortcut.
 
     (* level 1 *)
     Lemma A2 : forall t ch2 sim, ranges_ok1 ch2 -> cm1 it t ch2 = Some true -> existsb is_not_defined ch2 = false ->
-        let '(s, e) := match fst (sp_time t ch2 sim) with Some (s, e, _) => (s, e) | None => (MInf, PInf) end in
-        gf_skip (Some t) (it_comp it) a b s e = false.
+        let '(s, e) := match fst (sp_time (upper t) ch2 sim) with Some (s, e, _) => (s, e) | None => (MInf, PInf) end in
+        gf_skip (Some (upper t)) (it_comp it) a b s e = false.
     Proof.
-      intros t ch2 sim Hr Hm Hind. unfold comp_match1 in Hm. apply body_true in Hm.
-      assert (Hwhole : gf_skip (Some t) (it_comp it) a b MInf PInf = false -> True) by auto.
-      assert (Hall : cname_eqb t (it_comp it) = true -> gf_skip (Some t) (it_comp it) a b MInf PInf = false).
+      intros t ch2 sim Hr Hm Hind. unfold comp_match1 in Hm. cbv zeta in Hm. apply body_true in Hm.
+      assert (Hwhole : gf_skip (Some (upper t)) (it_comp it) a b MInf PInf = false -> True) by auto.
+      assert (Hall : cname_eqb (upper t) (it_comp it) = true -> gf_skip (Some (upper t)) (it_comp it) a b MInf PInf = false).
       { intros Heq. unfold gf_skip. rewrite Heq. cbn [negb orb]. apply (hull_nondeg it Hok). }
       destruct Hm as [[-> Heq]|[[-> Heq]|(Hne & Hni & Heq & Hm)]].
       - cbn. apply Hall. exact Heq.
       - cbn in Hind. discriminate.
       - destruct ch2 as [|x l]; [congruence|]. cbn [sp_time].
-        destruct (negb (is3 t)) eqn:H3; [cbn; apply Hall; exact Heq|].
+        destruct (negb (is3 (upper t))) eqn:H3; [cbn; apply Hall; exact Heq|].
         destruct Hm as [Hm|Hm]; [congruence|].
         pose proof (cm_loop_true _ _ Hm) as Hev.
         (* either the head is the time-range that both sides read, or there is no time-range at all *)
         assert (Hno : forall l' sim', (forall y, In y l' -> In y (x :: l)) ->
                    (forall r0, In (ETimeRange r0) l' -> False) ->
-                   fst (sp_time t l' sim') = None).
+                   fst (sp_time (upper t) l' sim') = None).
         { induction l' as [|y l' IH]; intros sim' Hsub Hnr; [reflexivity|]. cbn [sp_time]. rewrite H3.
           destruct y; try (apply IH; [intros; apply Hsub; right; assumption|intros r0 Hr0; apply (Hnr r0); right; exact Hr0]).
           exfalso. apply (Hnr r). left. reflexivity. }
@@ -186,7 +186,7 @@ Section Shortcut.
       destruct x as [| | |t ch2|]; try apply IH'.
       destruct (existsb is_not_defined ch2) eqn:Hind; [apply IH'|].
       pose proof (A2 t ch2 (sim && len_le1 ch2) (Hr t ch2 (or_introl eq_refl)) (Hall _ (or_introl eq_refl)) Hind) as H2.
-      destruct (sp_time t ch2 (sim && len_le1 ch2)) as [[[[s e] sm]|] sim2]; cbn [fst] in *; exact H2.
+      cbv zeta. destruct (sp_time (upper t) ch2 (sim && len_le1 ch2)) as [[[[s e] sm]|] sim2]; cbn [fst] in *; exact H2.
     Qed.
 
     Lemma A0 : forall flat sim,
@@ -199,12 +199,12 @@ Section Shortcut.
         assert (IH' : forall sim', let '(tag, s, e, _) := sp_col r sim' in gf_skip tag (it_comp it) a b s e = false).
         { intros sim'. apply IH. intros c' Hc'. apply Hall. right. exact Hc'. }
         destruct (Hall c (or_introl eq_refl)) as (n & ch & -> & Hr & Hm).
-        destruct n; try apply IH'.
-        unfold comp_match0 in Hm. apply body_true in Hm.
+        destruct (cname_eqb (upper n) NCal) eqn:Hn; [|apply IH'].
+        unfold comp_match0 in Hm. cbv zeta in Hm. apply body_true in Hm.
         destruct Hm as [[-> _]|[[-> Heq]|(Hne & Hni & _ & Hm)]].
         + cbn. apply IH'.
-        + cbn in Heq. discriminate.
-        + destruct Hm as [Hm|Hm]; [cbn in Hm; discriminate|].
+        + congruence.
+        + destruct Hm as [Hm|Hm]; [rewrite Hn in Hm; discriminate|].
           pose proof (cm_loop_true _ _ Hm) as Hev.
           pose proof (A1 ch (sim && len_le1 ch) Hr) as H1.
           assert (Hch : forall x, In x ch -> match x with ECompFilter t ch2 => cm1 it t ch2 = Some true
@@ -245,15 +245,15 @@ Section Shortcut.
       match fst (sp_comp l false) with Some (_, _, _, sim) => sim = false | None => True end.
   Proof.
     induction l as [|x l' IH]; cbn [sp_comp]; [cbn; auto|].
-    destruct x; try exact IH. destruct (existsb is_not_defined children); [exact IH|]. cbn [andb].
-    destruct (sp_time_simple_false name children) as [H1 H2].
-    destruct (sp_time name children false) as [[[[s e] sm]|] sim2]; cbn [fst snd] in *; subst; auto.
+    destruct x; try exact IH. cbv zeta. destruct (existsb is_not_defined children); [exact IH|]. cbn [andb].
+    destruct (sp_time_simple_false (upper name) children) as [H1 H2].
+    destruct (sp_time (upper name) children false) as [[[[s e] sm]|] sim2]; cbn [fst snd] in *; subst; auto.
   Qed.
 
   Lemma sp_col_simple_false : forall l, snd (sp_col l false) = false.
   Proof.
     induction l as [|x l' IH]; cbn [sp_col]; [reflexivity|].
-    destruct x; try exact IH. destruct name; try exact IH. cbn [andb].
+    destruct x; try exact IH. destruct (cname_eqb (upper name) NCal); [|exact IH]. cbn [andb].
     destruct (sp_comp_simple_false children) as [H1 H2].
     destruct (sp_comp children false) as [[[[[tag s] e] sm]|] sim2]; cbn [fst snd] in *; subst; auto.
   Qed.
@@ -285,31 +285,31 @@ Section Shortcut.
     cbn [sp_col] in Hsp.
     assert (Hfalse : forall X, snd (sp_col [] false) = true -> X) by (cbn; discriminate).
     destruct c as [| | |n ch|]; try (cbn in Hsp; inversion Hsp; fail).
-    destruct n; try (cbn in Hsp; inversion Hsp; fail).
-    cbn [andb] in Hsp. cbn [test_filter]. unfold comp_match0, comp_match_body.
-    destruct (Hin (ECompFilter NCal ch) (or_introl eq_refl)) as (f & Hf & Hcf).
-    pose proof (Hr f Hf NCal ch Hcf) as Hr0.
+    destruct (cname_eqb (upper n) NCal) eqn:Hn; [|cbn in Hsp; inversion Hsp].
+    cbn [andb] in Hsp. cbn [test_filter]. unfold comp_match0, comp_match_body. cbv zeta. rewrite Hn.
+    destruct (Hin (ECompFilter n ch) (or_introl eq_refl)) as (f & Hf & Hcf).
+    pose proof (Hr f Hf n ch Hcf) as Hr0.
     destruct ch as [|x [|y l]].
     - reflexivity.
     - cbn [len_le1 sp_comp] in Hsp.
       destruct x as [| | |t ch2|]; try (cbn in Hsp; inversion Hsp; fail).
       destruct (existsb is_not_defined ch2) eqn:Hind; [cbn in Hsp; inversion Hsp|].
-      cbn [andb cname_eqb negb cm_loop]. 
+      cbv zeta in Hsp. cbn [andb negb cm_loop].
       assert (Hcm1 : cm1 it t ch2 = Some true).
       { pose proof (Hr0 t ch2 (or_introl eq_refl)) as Hr1.
         destruct ch2 as [|y [|y2 l2]].
         - cbn in Hsp. inversion Hsp; subst. unfold gf_skip in Hskip. apply orb_false_iff in Hskip as [Ht _].
-          apply negb_false_iff in Ht. unfold comp_match1, comp_match_body. rewrite Ht. reflexivity.
-        - cbn [len_le1 andb sp_time] in Hsp. destruct (negb (is3 t)) eqn:H3; [cbn in Hsp; inversion Hsp|].
+          apply negb_false_iff in Ht. unfold comp_match1, comp_match_body. cbv zeta. rewrite Ht. reflexivity.
+        - cbn [len_le1 andb sp_time] in Hsp. destruct (negb (is3 (upper t))) eqn:H3; [cbn in Hsp; inversion Hsp|].
           destruct y as [|r| | |]; try (cbn in Hsp; inversion Hsp; fail).
           cbn in Hsp. inversion Hsp as [[Ht Hs He Hb]]. subst tag s e.
           unfold gf_skip in Hskip. apply orb_false_iff in Hskip as [Ht Htime]. apply negb_false_iff in Ht.
-          unfold comp_match1, comp_match_body. rewrite Ht, H3. cbn [negb cm_loop first_child_range].
+          unfold comp_match1, comp_match_body. cbv zeta. rewrite Ht, H3. cbn [negb cm_loop first_child_range].
           destruct (trm_item it r Hok (Hr1 r (or_introl eq_refl))) as (bb & Hbb & Hiff). rewrite Hbb. cbn [obind].
           destruct (matched_sound it _ _ Hok Htime Hm) as (c & Hc & Ho).
           destruct Hiff as [_ Hiff]. assert (bb = true) as -> by (apply Hiff; split; [exact Hb|exists c; auto]). rewrite ?Hb. reflexivity.
-        - cbn [len_le1 andb] in Hsp. destruct (sp_time_simple_false t (y :: y2 :: l2)) as [H1 H2].
-          destruct (sp_time t (y :: y2 :: l2) false) as [[[[s' e'] sm]|] sim2]; cbn [fst snd] in *; inversion Hsp; subst; discriminate. }
+        - cbn [len_le1 andb] in Hsp. destruct (sp_time_simple_false (upper t) (y :: y2 :: l2)) as [H1 H2].
+          destruct (sp_time (upper t) (y :: y2 :: l2) false) as [[[[s' e'] sm]|] sim2]; cbn [fst snd] in *; inversion Hsp; subst; discriminate. }
       rewrite Hcm1. reflexivity.
     - cbn [len_le1 andb] in Hsp. destruct (sp_comp_simple_false (x :: y :: l)) as [H1 H2].
       destruct (sp_comp (x :: y :: l) false) as [[[[[tag' s'] e'] sm]|] sim2]; cbn [fst snd] in *.
@@ -366,12 +366,14 @@ Section AlwaysTrue.
   Variable p : Z.
   Hypothesis Hp : forall it, prop_match p it = true.       (* a prop-filter that matches everything *)
 
-  Definition q_plain (t : cname) (r : trange) (rest : list elem) : list (list elem) :=
-    [[ECompFilter NCal [ECompFilter t (ETimeRange r :: rest)]]].
-  Definition q_prop (t : cname) (r : trange) (rest : list elem) : list (list elem) :=
-    [[ECompFilter NCal [ECompFilter t (ETimeRange r :: rest ++ [EPropFilter p])]]].
-  Definition q_twice (t : cname) (r : trange) (rest : list elem) : list (list elem) :=
-    [[ECompFilter NCal [ECompFilter t (ETimeRange r :: rest); ECompFilter t (ETimeRange r :: rest)]]].
+  (* cal, t: the name attributes as spelled by the client (any case) *)
+  Variable cal : rawname.
+  Definition q_plain (t : rawname) (r : trange) (rest : list elem) : list (list elem) :=
+    [[ECompFilter cal [ECompFilter t (ETimeRange r :: rest)]]].
+  Definition q_prop (t : rawname) (r : trange) (rest : list elem) : list (list elem) :=
+    [[ECompFilter cal [ECompFilter t (ETimeRange r :: rest ++ [EPropFilter p])]]].
+  Definition q_twice (t : rawname) (r : trange) (rest : list elem) : list (list elem) :=
+    [[ECompFilter cal [ECompFilter t (ETimeRange r :: rest); ECompFilter t (ETimeRange r :: rest)]]].
 
   Lemma cm_loop_ext : forall ev ev' l, (forall x, ev x = ev' x) -> cm_loop ev l = cm_loop ev' l.
   Proof. induction l as [|y l IH]; intros H; [reflexivity|]. cbn [cm_loop]. rewrite H, IH; auto. Qed.
@@ -387,22 +389,24 @@ Section AlwaysTrue.
       comp_match1 prop_match fuel_of it t (ETimeRange r :: rest ++ [EPropFilter p])
       = comp_match1 prop_match fuel_of it t (ETimeRange r :: rest).
   Proof.
-    intros it t r rest. unfold comp_match1, comp_match_body. cbn [first_child_range].
-    destruct (negb (cname_eqb t (it_comp it))); [reflexivity|]. destruct (negb (is3 t)); [reflexivity|].
+    intros it t r rest. unfold comp_match1, comp_match_body. cbv zeta. cbn [first_child_range].
+    destruct (negb (cname_eqb (upper t) (it_comp it))); [reflexivity|]. destruct (negb (is3 (upper t))); [reflexivity|].
     change (ETimeRange r :: rest ++ [EPropFilter p]) with ((ETimeRange r :: rest) ++ [EPropFilter p]).
     apply cm_loop_snoc_true. rewrite Hp. reflexivity.
   Qed.
 
   Lemma af_prop : forall it t r rest, all_filters prop_match fuel_of it (q_prop t r rest) = all_filters prop_match fuel_of it (q_plain t r rest).
   Proof.
-    intros. unfold q_prop, q_plain. cbn [all_filters test_filter]. unfold comp_match0, comp_match_body.
-    cbn [cname_eqb negb cm_loop]. rewrite cm1_prop. reflexivity.
+    intros. unfold q_prop, q_plain. cbn [all_filters test_filter]. unfold comp_match0, comp_match_body. cbv zeta.
+    destruct (negb (cname_eqb (upper cal) NCal)); [reflexivity|].
+    cbn [cm_loop]. rewrite cm1_prop. reflexivity.
   Qed.
 
   Lemma af_twice : forall it t r rest, all_filters prop_match fuel_of it (q_twice t r rest) = all_filters prop_match fuel_of it (q_plain t r rest).
   Proof.
-    intros. unfold q_twice, q_plain. cbn [all_filters test_filter]. unfold comp_match0, comp_match_body.
-    cbn [cname_eqb negb cm_loop].
+    intros. unfold q_twice, q_plain. cbn [all_filters test_filter]. unfold comp_match0, comp_match_body. cbv zeta.
+    destruct (negb (cname_eqb (upper cal) NCal)); [reflexivity|].
+    cbn [cm_loop].
     destruct (comp_match1 prop_match fuel_of it t (ETimeRange r :: rest)) as [[|]|]; reflexivity.
   Qed.
 
@@ -422,7 +426,7 @@ Section AlwaysTrue.
     intros t r rest items l Hitems Hranges Href.
     assert (Hok : forall ch2, (forall r', In (ETimeRange r') ch2 -> In (ETimeRange r') (ETimeRange r :: rest)) ->
                                forall chs, (forall x, In x chs -> x = ECompFilter t ch2) ->
-                                           ranges_ok [[ECompFilter NCal chs]]).
+                                           ranges_ok [[ECompFilter cal chs]]).
     { intros ch2 Hsub chs Hchs f [<-|[]] n ch [Heq|[]]. inversion Heq; subst. intros t' ch2' Hin.
       specialize (Hchs _ Hin). inversion Hchs; subst. intros r' Hr'. apply Hranges. apply Hsub. exact Hr'. }
     split; [|split].
